@@ -68,7 +68,7 @@ def make_case(rng, i, tier):
                 msgs.append(["ks", rng.choice(["C", "G", "F#"])])
             else:
                 msgs.append(["cc", c, 7, rng.randint(1, 100)])
-    prefix = [op for op in random_prefix(rng, n=(1, 2)) if op["op"] in ("copy", "read_abs", "read_rel", "set_channel", "pad", "scale", "iter_rel_velocity_edit", "transpose")] \
+    prefix = [op for op in random_prefix(rng, n=(1, 2)) if op["op"] in ("copy", "read_abs", "read_rel", "set_channel", "pad", "scale", "iter_rel_velocity_edit", "transpose", "normalise", "concat_copy")] \
         if i % 5 == 4 else []
     return {"msgs": msgs, "paired": paired, "prefix": prefix}
 
